@@ -90,6 +90,8 @@ def spec_wg(tier):
     grid += [{"src": s, "wts": w} for s in ("d", "a", "S") for w in ("wi", "tw", "ws", "io")]
     if tier != "quick":
         grid += [{"src": s, "wts": w} for s in ("c", "da", "ac") for w in ("wi", "tw", "ws", "io", "ww", "ts")]
+    # M without a unit of its own: the count reaches zero while Attach / Consume is still in progress
+    grid += [{"src": s, "wts": w, "own": "0"} for s in ("a", "c") for w in ("w", "i", "t", "wi")]
     rand = [{"src": "dac", "wts": "wis"}, {"src": "ca", "wts": "wti"}, {"src": "dd", "wts": "iso"}, {"src": "S", "wts": "tis"}]
     mc = [("WaitGroup_MC.cfg", 8, 900, "WaitGroup: sources {d,a,c,S,da} x waiters {w,t,i,s,o,wi,tw,ws}, all interleavings"),
           ("WaitGroup_Live.cfg", 4, 900, "WaitGroup: <>Quiescent under weak fairness of every thread (every waiter is eventually "
@@ -97,6 +99,7 @@ def spec_wg(tier):
     if tier != "quick":
         mc.append(("WaitGroup_MC3.cfg", 12, 3000, "WaitGroup: up to 3 sources / 2 waiters incl. two coroutines and timed + coroutine"))
     boost = [{"src": a, "wts": w} for a in ("d", "a", "c", "S") for w in ("w", "i", "o")]
+    boost += [{"src": a, "wts": "w", "own": "0"} for a in ("a", "c")]
     return ConcSpec(
         name="WaitGroup", scenario="wg", grid=grid, primary="C16", tail_boost=boost, tail_boost_execs=3000, tail_boost_preempt=1,
         paths_cfg="WaitGroup_paths.cfg", paths_max=4000 if tier == "quick" else 60000,
@@ -105,7 +108,7 @@ def spec_wg(tier):
         mc_cfgs=mc,
         dfs_max=1200 if tier == "quick" else 8000, preempt=2 if tier == "quick" else 3,
         rand_execs=150 if tier == "quick" else 2500, rand_grid=rand,
-        scen_keys=["src", "wts"], trace_timeout=1500)
+        scen_keys=["src", "wts", "own"], trace_timeout=1500)
 
 
 def spec_comutex(tier):
